@@ -71,6 +71,11 @@ type Conn struct {
 	// TransientEOF: the failing reads return (0, io.EOF) instead of a timeout error - a reader that reports "no
 	// data right now" the way the library's retry loop expects it.
 	TransientEOF bool
+	// TransientFor > 0 (with TransientEOF): not one read but every read during that much simulated time returns
+	// (0, io.EOF) - each at the cost of an EOF poll - and then the stream goes on: a transport whose "end" was not
+	// one, which the library's retry loop explicitly caters for.
+	TransientFor time.Duration
+	gapEnd       time.Duration
 	consumed     int
 	// PeerStalled: the peer has stopped reading. Writes still succeed while fewer than SendWindow bytes are
 	// unread (socket buffers), then they block.
@@ -270,7 +275,16 @@ func (e *deadlineErr) Is(target error) bool {
 
 func (n *Net) readReady(t *Task) bool {
 	c := t.req.conn
-	if c.clientClosed || t.req.n == 0 || len(c.inbox) > 0 {
+	if c.clientClosed || t.req.n == 0 {
+		return true
+	}
+	if c.inGap() {
+		if t.wakeAt == 0 {
+			t.wakeAt = n.s.now + time.Duration(n.s.cfg.EOFReadCostMs)*time.Millisecond
+		}
+		return n.s.now >= t.wakeAt
+	}
+	if len(c.inbox) > 0 {
 		return true
 	}
 	if c.rdlSet && n.s.now >= c.rdl {
@@ -290,6 +304,25 @@ func (n *Net) readReady(t *Task) bool {
 	default:
 		return true
 	}
+}
+
+// inGap reports whether the stream is inside a period of (0, io.EOF) reads (TransientFor); it starts the period when
+// the stream position reaches the offset and ends it - the stream goes on - when the time is over.
+func (c *Conn) inGap() bool {
+	if c.TransientFor <= 0 || !c.TransientEOF || len(c.Transients) == 0 || c.Transients[0] > c.consumed {
+		return false
+	}
+	now := c.net.s.now
+	if c.gapEnd == 0 {
+		c.gapEnd = now + c.TransientFor
+		c.net.s.Fault("read-eof-gap")
+	}
+	if now < c.gapEnd {
+		return true
+	}
+	c.Transients = c.Transients[1:]
+	c.gapEnd = 0
+	return false
 }
 
 //go:norace
@@ -320,6 +353,10 @@ func (n *Net) grantRead(t *Task) string {
 		return "0 (zero-length buffer)"
 	}
 	t.zeroReads = 0
+	if c.inGap() {
+		t.resp.err = io.EOF
+		return "EOF (for a while)"
+	}
 	if len(c.Transients) > 0 && c.Transients[0] <= c.consumed {
 		// a transient failure: this one Read fails, the stream goes on afterwards
 		c.Transients = c.Transients[1:]
